@@ -726,7 +726,15 @@ def run_history(c):
             count['R'] += 1
             data = sweep(pw, types, s['m'], cp, n_steps)
             try:
+                import copy as _copy
+                o_v = _copy.deepcopy(o)
                 o.regroup(data, verbose=False)
+                try:
+                    # the way _do_iter calls it: what is written to the log must not change the grouping
+                    o_v.regroup(_copy.deepcopy(data), verbose=True)
+                    twin = np.array_equal(np.asarray(o_v.group_data), np.asarray(o.group_data))
+                except BaseException:
+                    twin = False
             except SystemExit:
                 count['exit'] += 1
                 t.update(err='exit', last='R')
@@ -744,6 +752,10 @@ def run_history(c):
             t.update(groups=tuple(g), last='R')
             t['problems'] = [(kk, w, ob, ex, None, site_r)
                              for (kk, w, ob, ex) in partition_problems(g, k)]
+            if not twin:
+                t['problems'].append(('regroup-depends-on-verbose', 'regroup(verbose=True) and regroup(verbose=False) '
+                                      'leave different group tables for the same sweep results',
+                                      [float(x) for x in o_v.group_data[:, 2]], g, None, site_r))
         return t
 
     def canon_state(s):
